@@ -168,7 +168,7 @@ DoPow(a, b) == LET x == store[a]  y == store[b] IN
   /\ \/ TrueScalar(x) /\ TrueScalar(y)
         /\ Push(Mk("pow", <<a, b>>, << >>, << >>, << >>,
                    LAMBDA e, bd, c : CPow(At(x, e, bd, c), At(y, e, bd, c))))
-     \/ Rank(x) > 0 /\ IsLit2(y)
+     \/ Rank(x) > 0 /\ IsLit2(y) /\ x.fi = << >>      \* inner(a, a) refuses repeated free indices
         /\ Push(Mk("pow", <<a, b>>, << >>, << >>, x.fi,
                    LAMBDA e, bd, c : CSumSet(Tup(x.sh), LAMBDA t : CMul(At(x, e, bd, t), CConj(At(x, e, bd, t))))))
 
